@@ -170,6 +170,14 @@ def c_series_wrappers(rng):
         b = s.bounds
         if list(b.index) != labels:
             out.append(V(f'series.bounds/index-labels/{how}', f'{list(b.index)}', recipe))
+        if kind == 'point':
+            skind = rng.choice(['polygon', 'multipolygon', 'line', 'multipoint', 'point'])
+            shape_el = gen.element(skind, rng)
+            S = gen.scalar_cls_of(skind)
+            shape = S(np.asarray(shape_el, dtype='float64')) if skind == 'point' else S(shape_el)
+            expi = [oracle.point_intersects(p_, skind, shape_el) for p_ in view]
+            if all(e is not None for e in expi):
+                chk('intersects', s.intersects(shape), expi, lambda a, b: bool(a) == bool(b))
         if len(view) and not any(math.isnan(v) for v in oracle.total_bounds(kind, view)):
             d = s.hilbert_distance(p=3)
             ref = s.array.hilbert_distance(p=3)
